@@ -11,9 +11,9 @@ RULE = ("cases = operand tuples / (array, mask pattern) / (array, window vector)
 ASSUMPTIONS = ["oracle: list concatenation, list comprehension over mask cells in row-major order, Python slicing r[s:e]",
                "cells hold distinct integers so order and identity of cells are visible", "values and row structure only (no dtypes)"]
 REQUIRED_FEATURES = ["zero_row_operand", "empty_row", "concat_axis1", "mask_all_false", "mask_all_true", "negative_end",
-                     "empty_window", "input_1d", "input_2d", "npsarray", "padded_left", "mixed_dtypes"]
+                     "empty_window", "end_before_start", "input_1d", "input_2d", "npsarray", "padded_left", "mixed_dtypes"]
 BOUNDS = {"quick": "LV(3,3) (concatenate partners / windows of three-row arrays restricted to LV(3,2) resp. LV(2,3)): all ordered pairs for concatenate axis 0 / axis -1; *_like; padding both sides x 2 fill values; every boolean "
-                   "mask pattern over the cells for nonzero / where / subset / mask indexing; every vector of per-row windows 0<=s<=e<=len "
+                   "mask pattern over the cells for nonzero / where / subset / mask indexing; every vector of per-row windows 0<=s<=len, 0<=e<=len (an end before the start: empty window) "
                    "and negative ends for ragged_slice on ragged, 2-D and 1-D (<=2 windows, n<=4) inputs and NPSArray[starts:ends]",
           "thorough": "LV(3,3) u LV(4,2); concatenate triples over LV(2,2)"}
 
@@ -33,7 +33,8 @@ def shards(tier):
 
 
 def _windows(l):
-    return [(s, e) for s in range(l + 1) for e in list(range(s, l + 1)) + [-k for k in range(1, l - s + 1)]]
+    # every start and end inside the row, ends also counted from the row end; an end before the start is an empty window
+    return [(s, e) for s in range(l + 1) for e in list(range(0, l + 1)) + [-k for k in range(1, l + 1)]]
 
 
 def cases(shard, tier):
@@ -208,6 +209,8 @@ def check(case, acc):
             acc.feature("negative_end")
         if any(len(r[c[0]:c[1]]) == 0 for r, c in zip(rows, combo)):
             acc.feature("empty_window")
+        if any((c[1] if c[1] >= 0 else len(r) + c[1]) < c[0] for r, c in zip(rows, combo)):
+            acc.feature("end_before_start")
         exp = R([r[c[0]:c[1]] for r, c in zip(rows, combo)])
         if kind == "rslice":
             _cmp(acc, "ragged_slice(ragged)", exp, observe(lambda: ragged_slice(_ra(rows), st, en)))
